@@ -143,21 +143,21 @@ Theorem C19_solution_netlist_rt_partial : forall sqrt_o epsdef xs nets rects eps
   nodup_str (map c_name xs) = true ->
   forallb (unit_net_ok (map c_name xs)) nets = true ->
   let n := mkNetlist (map cmodule xs) nets rects eps in
-  exists t n', solution_to_netlist n [] = Some t /\ read_netlist sqrt_o epsdef t = Ok n' /\
+  exists t n', solution_to_netlist_found n [] = Some t /\ read_netlist sqrt_o epsdef t = Ok n' /\
                nl_modules n' = nl_modules n /\ nl_nets n' = nl_nets n.
 Proof. exact solution_netlist_rt_partial. Qed.
 Print Assumptions C19_solution_netlist_rt_partial.
 
 Theorem C19_solution_netlist_rt_refuted : forall sqrt_o,
-  (exists n t n', read_netlist sqrt_o eps_ref doc_weight = Ok n /\ solution_to_netlist n [] = Some t /\
+  (exists n t n', read_netlist sqrt_o eps_ref doc_weight = Ok n /\ solution_to_netlist_found n [] = Some t /\
                   read_netlist sqrt_o eps_ref t = Ok n' /\ map n_weight (nl_nets n') <> map n_weight (nl_nets n)) /\
-  (exists n t r, read_netlist sqrt_o eps_ref doc_terminal = Ok n /\ solution_to_netlist n [] = Some t /\
+  (exists n t r, read_netlist sqrt_o eps_ref doc_terminal = Ok n /\ solution_to_netlist_found n [] = Some t /\
                  read_netlist sqrt_o eps_ref t = Reject r).
 Proof. exact solution_netlist_rt_refuted. Qed.
 Print Assumptions C19_solution_netlist_rt_refuted.
 
 Theorem C19_legal_netlist_rt_refuted : forall sqrt_o,
-  exists n t n', read_netlist sqrt_o eps_ref doc_weight_rects = Ok n /\ legal_netlist n = Some t /\
+  exists n t n', read_netlist sqrt_o eps_ref doc_weight_rects = Ok n /\ legal_netlist_found n = Some t /\
                  read_netlist sqrt_o eps_ref t = Ok n' /\
                  map n_weight (nl_nets n') <> map n_weight (nl_nets n) /\
                  map mr_region (nl_rects n') <> map mr_region (nl_rects n).
